@@ -49,7 +49,13 @@ pub fn run(case: &J) -> J {
     let seq2: Vec<J> = events.iter().map(|e| run_one(&mut Runtime::default(), &p2.program, e, &meta, &tz)).collect();
     // one runtime, cleared between events
     let mut rt = Runtime::default();
-    let cleared: Vec<J> = events.iter().map(|e| { let r = run_one(&mut rt, &p1.program, e, &meta, &tz); rt.clear(); r }).collect();
+    let mut cleared_empty = true;
+    let cleared: Vec<J> = events.iter().map(|e| {
+        let r = run_one(&mut rt, &p1.program, e, &meta, &tz);
+        rt.clear();
+        cleared_empty &= rt.is_empty();
+        r
+    }).collect();
     // one runtime, never cleared (reported, not required to coincide by the property)
     let mut rt2 = Runtime::default();
     let dirty: Vec<J> = events.iter().map(|e| run_one(&mut rt2, &p1.program, e, &meta, &tz)).collect();
@@ -86,7 +92,7 @@ pub fn run(case: &J) -> J {
             Err(_) => threads_same = false,
         }
     }
-    json!({"compile": "ok", "compile_same": compile_same && seq == seq2, "cleared_same": cleared == seq,
+    json!({"compile": "ok", "compile_same": compile_same && seq == seq2, "cleared_same": cleared == seq && cleared_empty,
            "dirty_same": dirty == seq, "threads_same": threads_same, "seq": seq})
 }
 
